@@ -36,6 +36,8 @@ def corpus(ck, quick):
     ho = hostile.operator_programs(ck.rng.fork("ops"), True)
     for name, src, m in (hs + ho)[:None if not quick else 60]:
         progs.append((name, src, m, []))
+    for name, src, m in hostile.extreme_arith_programs(ck.rng.fork("extreme"), quick) + hostile.statement_call_programs(ck.rng.fork("stmtcall"), quick):
+        progs.append((name, src, m, []))
     # the byte-exact string / index battery of C13 (every string function over boundary arguments, conversions from
     # bytes and code points including surrogates and out-of-range values)
     from . import C13
